@@ -277,13 +277,16 @@ def scan_assumptions(groups):
     out = []
     files = set(os.path.join(VERIF, "harness", g.harness) for g in groups)
     incs = set()
-    for f in list(files):
+    todo = list(files)
+    while todo:   # transitive closure over the local includes
+        f = todo.pop()
         try:
             for m in re.finditer(r'#include\s+"([^"]+)"', open(f).read()):
                 for base in ("contracts", "harness", "stubs"):
                     p = os.path.join(VERIF, base, m.group(1))
-                    if os.path.isfile(p):
+                    if os.path.isfile(p) and p not in incs:
                         incs.add(p)
+                        todo.append(p)
         except OSError:
             pass
     n_assume = 0
@@ -297,6 +300,11 @@ def scan_assumptions(groups):
         for m in re.finditer(r"VP-ASSUMPTION:\s*(.*)", txt):
             out.append("%s: %s" % (os.path.relpath(f, VERIF), m.group(1).strip().rstrip("*/").strip()))
     out.append("input-shaping assumptions (VP_ASSUME/__CPROVER_assume) in the compiled harness/contract files: %d occurrences; they constrain harness inputs (index ranges, ghost ranges, representation invariant of operands), never library state after the call" % n_assume)
+    enforced = set(f for g in groups for f in list(g.enforce) + list(g.enforce_rec))
+    replaced = set(f for g in groups for f in g.replace)
+    if replaced - enforced:
+        out.append("callee contracts used for call replacement (modular reasoning) and not themselves enforced by a group of this check -- assumed here, "
+                   "enforced where another check lists the function under contract: " + ", ".join(sorted(replaced - enforced)))
     ub = sorted(set("%s: --unwind %s %s" % (g.function, g.unwind, g.bound_note) for g in groups if g.bounded and (g.unwind is not None or g.bound_note)))
     out += ["bound: " + u for u in ub[:40]]
     cfgs = sorted(set(g.config for g in groups))
